@@ -3,7 +3,11 @@ package sim
 import (
 	"fmt"
 	"os"
+	"path/filepath"
 	"sort"
+	"strings"
+
+	"github.com/mosaicnetworks/babble/src/peers"
 
 	hg "github.com/mosaicnetworks/babble/src/hashgraph"
 )
@@ -203,6 +207,52 @@ func (c *Cluster) execSynthStep(s *Step) {
 				}
 			}
 		}
+	case "synth-boot":
+		// the history created so far is written to a database by a throw-away
+		// instance (insertion + consensus pass per event, as a node does); every
+		// identity then becomes a real persistent node bootstrapped from a copy of
+		// that database - a network whose members all hold this history and whose
+		// earlier lives ended here ("whatever happened before", C06)
+		if c.syn == nil || len(c.dag.order) == 0 {
+			return
+		}
+		prep := c.newInstance("prepared-history", "badger", 10000)
+		for _, de := range c.dag.order {
+			progress.Add(1)
+			prep.insert(de)
+			// the payload of the history counts as submitted (to its creator's
+			// earlier life) for the transaction ledger
+			for _, tx := range de.Body.Transactions {
+				c.ledger.submitted[string(tx)]++
+			}
+		}
+		prepErr := prep.err
+		prepPath := prep.sn.dbPath
+		prep.close()
+		if prepErr != nil {
+			c.stats.probe("prepared-history-insert-error")
+			return
+		}
+		all := []*peers.Peer{}
+		for _, m := range c.genesisSet {
+			all = append(all, m.peer())
+		}
+		for _, n := range c.genesisSet {
+			n.storeKind = "badger"
+			n.cacheSize = 10000
+			n.dbPath = filepath.Join(c.workdir, fmt.Sprintf("db-n%d-prepared", n.idx))
+			if err := copyDir(prepPath, n.dbPath); err != nil {
+				panic(harnessError{"copy prepared db: " + err.Error()})
+			}
+			os.Remove(filepath.Join(n.dbPath, "LOCK"))
+			n.configuredPeers = clonePeers(all)
+			n.genesisPeers = clonePeers(all)
+			if err := c.startNode(n, true); err != nil {
+				panic(harnessError{fmt.Sprintf("bootstrap of node %d from the prepared history: %v", n.idx, err)})
+			}
+		}
+		c.synthetic = false
+		c.stats.probe("prepared-history-bootstrapped")
 	case "synth":
 		st := c.syn
 		if st == nil || s.A < 0 || s.A >= len(st.heads) || s.B >= len(st.heads) {
@@ -273,7 +323,11 @@ func (c *Cluster) playSteps(r *RNG, plays []synthPlay) []*Step {
 	out := []*Step{}
 	for _, p := range plays {
 		s := &Step{Op: "synth", A: p.creator, B: p.other, D: int64(r.Intn(3))}
-		if r.Bool(0.35) {
+		pTx := 0.35
+		if c.synPTx > 0 {
+			pTx = c.synPTx
+		}
+		if r.Bool(pTx) {
 			c.synTxn++
 			s.Tx = []byte(fmt.Sprintf("synth-%d", c.synTxn))
 		}
@@ -767,7 +821,9 @@ const deepFairCycles = 12
 // one or two coin rounds (found with the reference model under an adversarial
 // coin, realised by grinding the coin bits), followed by fair gossip among
 // all validators. false: the search found nothing deep enough.
-func (c *Cluster) buildSynthDeepDag(r *RNG) bool {
+func (c *Cluster) buildSynthDeepDag(r *RNG) bool { return c.buildSynthDeep(r, true) }
+
+func (c *Cluster) buildSynthDeep(r *RNG, fair bool) bool {
 	n := []int{4, 4, 4, 5, 5, 6}[r.Intn(6)]
 	want := []int{5, 6, 7, 9, 9, 10, 11}[r.Intn(7)]
 	var base []synthPlay
@@ -788,8 +844,21 @@ func (c *Cluster) buildSynthDeepDag(r *RNG) bool {
 		c.stats.probe("synthetic-deep-search-empty")
 		return false
 	}
+	if !fair && res.dist > 0 {
+		// the history is to end while the election is still open: cut it back
+		for cut := len(plays) - 1; cut > n+10; cut -= 2 {
+			dd, _ := refFromPlays(n, plays[:cut])
+			if rr := dd.deepElection(int(hg.COIN_ROUND_FREQ)); rr.dist == 0 && rr.last >= 4 {
+				plays = plays[:cut]
+				break
+			}
+		}
+	}
 	d, ids := refFromPlays(n, plays)
 	res = d.deepElection(int(hg.COIN_ROUND_FREQ))
+	if res.dist == 0 {
+		c.stats.probe("synthetic-deep-election-open-at-the-tail")
+	}
 	c.stats.probe("synthetic-deep-election-history")
 	c.stats.probeMax("synthetic-deep-election-undecided-distance-model", res.last)
 	c.execSynthStep(&Step{Op: "synth-init", N: n})
@@ -809,6 +878,48 @@ func (c *Cluster) buildSynthDeepDag(r *RNG) bool {
 		}
 		c.execSynthStep(s)
 	}
-	c.execSynthStep(&Step{Op: "synth-fair", N: deepFairCycles})
+	if fair {
+		c.execSynthStep(&Step{Op: "synth-fair", N: deepFairCycles})
+	}
 	return true
+}
+
+// preparedRun (C06): real persistent nodes bootstrap from a database that
+// holds a synthetic history - a deep election still open at the tail while
+// later rounds are decided, payload events waiting behind it - and then run the
+// fair suffix with real gossip; the usual C06 oracle decides.
+func (c *Cluster) preparedRun(spec *runSpec) {
+	c.finalHook = c.checkC06
+	if spec.Steps != nil {
+		for _, s := range spec.Steps {
+			cp := *s
+			if strings.HasPrefix(cp.Op, "synth") {
+				c.execSynthStep(&cp)
+			} else {
+				c.exec(&cp)
+			}
+			if c.syn != nil && len(c.steps) > 0 && c.stopNow(spec) {
+				break
+			}
+		}
+	} else {
+		r := NewRNG(Mix(c.seed, 0x70726570))
+		// payload is rare in most of these histories: the events still waiting at
+		// the tail then all lie behind (not before) the open election
+		c.synPTx = []float64{0.02, 0.05, 0.1, 0.35}[r.Intn(4)]
+		if !c.buildSynthDeep(r, false) {
+			n := []int{4, 4, 5}[r.Intn(3)]
+			c.execSynthStep(&Step{Op: "synth-init", N: n})
+			for _, s := range c.playSteps(r, synthPlays(r, n, r.Range(6, 14))) {
+				c.execSynthStep(s)
+			}
+		}
+		c.execSynthStep(&Step{Op: "synth-boot"})
+		if c.stats.Probes["prepared-history-bootstrapped"] > 0 {
+			c.fairSuffix(spec)
+		}
+	}
+	if c.stats.Probes["prepared-history-bootstrapped"] > 0 {
+		c.finalChecks(spec)
+	}
 }
